@@ -281,6 +281,37 @@ def case_linear(fam, rep):
             else:
                 run.fail("newton.linear", "clause=linear-problem-one-update", "a linear problem needed %d iterations" % res.iterations,
                          {"fnorms": res.fnorms})
+            # the same clause counted independently (own counter around the linear solver, not the library's iteration counter), with
+            # items whose matrices are scaled / resized on the way into the system: a body multiplier, a penalty constraint, a point load,
+            # from a non-zero start, with and without prescribed values handed over
+            if mesh.dim == 3 and fam in ("hexahedron", "tetra", "hexahedron20"):
+                import scipy.sparse.linalg as spl
+                m2 = mesh.copy()
+                m2.update(points=np.vstack([mesh.points, mesh.points.max(0) + np.array([0.6, -0.5, -0.5]) * L]))
+                f2 = problems.field_for(fam, m2, "3d")
+                body2 = fem.SolidBody(fem.LinearElastic(E=float(rng.uniform(1, 3)), nu=float(rng.uniform(0.1, 0.4))), f2, multiplier=float(rng.uniform(0.4, 3)))
+                face = np.arange(mesh.npoints)[np.isclose(mesh.points[:, 0], L[0])]
+                c = m2.npoints - 1
+                mpc = fem.MultiPointConstraint(f2, points=face, centerpoint=c, multiplier=float(rng.uniform(10, 200)))
+                interior = np.arange(mesh.npoints)[~np.any(np.isclose(mesh.points, 0) | np.isclose(mesh.points, L), axis=1)]
+                pl = fem.PointLoad(f2, [int(interior[0])] if len(interior) else [1], values=[list(rng.uniform(-0.02, 0.02, 3))])
+                bd = {"fix": fem.Boundary(f2[0], fx=0.0), "move": fem.Boundary(f2[0], mask=np.arange(m2.npoints) == c, value=rng.uniform(-0.05, 0.05, 3))}
+                d0, d1 = fem.dof.partition(f2, bd)
+                e0 = fem.dof.apply(f2, bd, d0)
+                for with_ext in (True, False):
+                    f2[0].values[:] = 0.01 * rng.standard_normal(f2[0].values.shape)
+                    count = [0]
+
+                    def solver(A, b_):
+                        count[0] += 1
+                        return spl.spsolve(A, b_)
+                    kw = dict(ext0=e0) if with_ext else {}
+                    res3 = fem.newtonrhapson(items=[body2, mpc, pl], dof0=d0, dof1=d1, solver=solver, tol=1e-10, verbose=False, **kw)
+                    if count[0] == 1 and res3.iterations == 1:
+                        run.ok("newton.linear", unit="linear:one-solve-counted", config=("linear-counted", fam, with_ext))
+                    else:
+                        run.fail("newton.linear", "clause=linear-problem-one-update[counted]", "a linear problem with scaled / resized item matrices took %d linear "
+                                 "solves (%d reported iterations)" % (count[0], res3.iterations))
             # Laplace (scalar) problem through the x0/fun/jac call style
             reg = gen.make_region(fam, mesh)
             sf = fem.FieldContainer([fem.Field(reg, dim=1)])
@@ -366,7 +397,7 @@ SPEC = {
                        "success:boundary-honoured:field2", "styles:no-ext0", "styles:constraint", "styles:converged-at-maxiter", "styles:parallel+solver",
                        "styles:no-items", "styles:array-newton", "styles:array-newton-raises", "success:continuation", "success:unload-to-zero", "linear:unload-one-iteration", "success:prescribed-values",
                        "success:reported-residual", "success:reassembly", "success:reassembly-settled", "success:fun", "success:commit",
-                       "solve:reduced-system", "solve:prescribed-increment", "linear:one-iteration", "failure:maxiter",
+                       "solve:reduced-system", "solve:prescribed-increment", "linear:one-iteration", "linear:one-solve-counted", "failure:maxiter",
                        "failure:no-commit", "failure:raises:ValueError"],
     "rule": ("boundary value problems on seeded interior-distorted box meshes (9 element families; 3D, plane strain, axisymmetric, mixed "
              "u/p/J, nearly-incompressible body; body force, point load, follower pressure), random tolerance 1e-12..1e-4, continuation "
